@@ -24,7 +24,7 @@ META = {
              'oracle = brute-force GEOS selection + own dilation / node-sharing + the model\'s canonical arrays; '
              'distinct = (convention, shape, holes, geometry, buffer, history, source, variable zoo)'),
     'min': {'evaluations': 400, 'distinct': 150,
-            'classes': {'history:direct': 50, 'history:via-file': 30, 'source:disk': 20, 'source:memory': 50,
+            'classes': {'history:direct': 50, 'history:via-file': 30, 'history:mask-reused': 15, 'source:disk': 20, 'source:memory': 50,
                         'var:face:maskable': 100, 'var:no-grid': 50, 'unmaskable-cropped-unaltered': 10,
                         'var:integer-with-_FillValue': 5, 'var:integer-with-missing_value': 5, 'var:edge:maskable': 5, 'var:node:maskable': 10}},
     'must_reach': ['emsarray.masking:mask_grid_dataset', 'emsarray.masking:find_fill_value', 'emsarray.conventions.ugrid:UGrid.apply_clip_mask'],
